@@ -146,6 +146,11 @@ func init() {
 		w[k] = v
 	}
 	base.Gen.Weights = w
+	// two-signer price transactions stay out of these histories: when the second report of such a
+	// transaction fails, the first stays in the oracle's memory (listed finding K10 of C13), which
+	// a restart forgets - the divergence would be reported here without an oracle that could
+	// tell it from anything else
+	base.Gen.TwoSignerPct = 0
 	base.Gen.SimPct = 10 // node-local simulations on the node that never stops; the restarted node never sees them
 	registerWorldProp(&base)
 }
